@@ -24,6 +24,7 @@ class Spy:
         self.gates = {}  # k -> simnet.Gate
         self.gate_name = {}  # name -> (occurrence, Gate)
         self.delay = 0.0
+        self.delay_fn = None  # callable(name, shown argument) -> virtual seconds, on top of `delay`
         self.open_files = {}  # id(file) -> (path, mode)
         self.opened = 0
         self.closed = 0
@@ -61,6 +62,10 @@ class Spy:
                 await g.wait()
             if self.delay:
                 await asyncio.sleep(self.delay)
+            if self.delay_fn is not None:
+                d = self.delay_fn(name, shown)
+                if d:
+                    await asyncio.sleep(d)
         finally:
             self.current = None
         exc = self.fail_at.get(k)
